@@ -155,6 +155,13 @@ func cmdCheck(args []string) int {
 		for k, v := range h.Bounds[*tier] {
 			b[k] = v
 		}
+		if prop == "C20" {
+			// lock discipline does not depend on log sizes: the quick tier uses the smallest shapes
+			b["locks"] = 1
+			if *tier == "quick" {
+				b["log"], b["entries"], b["chunk"] = 1, 1, 1
+			}
+		}
 		res := Explore(w, h.Name, b, *workers, *solver)
 		results = append(results, res)
 		if *verbose {
@@ -179,6 +186,9 @@ func cmdCheck(args []string) int {
 		return 2
 	}
 
+	if prop == "C20" {
+		locksetFailures(results)
+	}
 	// failures attributed to this property
 	var mine []*Failure
 	other := map[string]int{}
@@ -224,6 +234,18 @@ func cmdCheck(args []string) int {
 				sig += "|known" + strconv.Itoa(kidx)
 			}
 			reproduced := true
+			if f.Kind == "LOCKSET" {
+				// a fact of the explored paths themselves (an access executed without the lock held);
+				// there is no single-threaded native run that could confirm or refute it
+				if kidx >= 0 {
+					knownHits[kidx] = true
+				} else {
+					violations++
+					fmt.Printf("VIOLATION property=%s replay=%s\n", prop, path)
+					fmt.Printf("  harness=%s label=%s %s\n", f.Harness, f.Label, f.Detail)
+				}
+				continue
+			}
 			if perSig[sig] >= 2 {
 				// enough native confirmations / reports for this failure signature
 				continue
@@ -547,3 +569,48 @@ func writeEvidence(vdir, prop, tier string, seed int, results []*HarnessResult, 
 }
 
 func round2(f float64) float64 { return float64(int(f*100+0.5)) / 100 }
+
+// locksetFailures turns the access logs of all harnesses into C20 failures: an access by library
+// code to a mutable field of a tracked struct without any node mutex held. A field is mutable if
+// library code writes it anywhere outside NewRaft/Bootstrap (which run before the node is shared).
+func locksetFailures(results []*HarnessResult) {
+	mutable := map[string]bool{}
+	for _, r := range results {
+		for k := range r.Access {
+			p := strings.Split(k, "|") // field, r/w, held/free, ctx, fn
+			if len(p) == 5 && p[1] == "w" && p[3] == "" {
+				mutable[p[0]] = true
+			}
+		}
+	}
+	for _, r := range results {
+		lab := r.stat("C20.library-access-to-mutable-node-state-holds-the-lock")
+		var keys []string
+		for k := range r.Access {
+			keys = append(keys, k)
+		}
+		sort.Strings(keys)
+		for _, k := range keys {
+			p := strings.Split(k, "|")
+			if len(p) != 5 || !mutable[p[0]] {
+				continue
+			}
+			lab.Checked++
+			if p[2] == "held" || p[3] != "" {
+				lab.Trivial++
+				continue
+			}
+			lab.Failed++
+			kind := "read"
+			if p[1] == "w" {
+				kind = "write"
+			}
+			r.Failures = append(r.Failures, &Failure{
+				Harness: r.Harness, Label: "C20.library-access-to-mutable-node-state-holds-the-lock", Kind: "LOCKSET",
+				Detail: fmt.Sprintf("%s %s in %s without the node mutex (%s)", p[0], kind, p[4], r.AccessPos[k]),
+				Tags:   map[string]string{"field": p[0], "access": kind, "func": p[4]},
+				Model:  map[string]any{},
+			})
+		}
+	}
+}
